@@ -23,8 +23,11 @@ def gen_atom(rng, ents, allow_old=True):
         return ["ne", ent, rng.choice(VALUES)]
     if k < 0.60:
         return ["in", ent, sorted(rng.sample(VALUES, rng.randint(1, 3)))]
-    if k < 0.78:
+    if k < 0.70:
         return ["attr_eq", ent, rng.choice(ATTRS), rng.choice(ATTR_VALUES)]
+    if k < 0.78:
+        # a bare attribute: truthy / falsy without being True / False (0, 1, 2)
+        return ["and", ["ne", ent, "zz"], ["attr_val", ent, rng.choice(ATTRS)]]
     if allow_old and k < 0.90:
         return ["old_eq", ent, rng.choice(VALUES)]
     if allow_old:
@@ -55,6 +58,8 @@ def render(e) -> str:
         return f"{e[1]} in {e[2]!r}"
     if op == "attr_eq":
         return f"{e[1]}.{e[2]} == {e[3]}"
+    if op == "attr_val":
+        return f"{e[1]}.{e[2]}"
     if op == "old_eq":
         return f"{e[1]}.old == '{e[2]}'"
     if op == "old_attr_eq":
@@ -74,7 +79,7 @@ def names(e, out=None) -> set:
     op = e[0]
     if op in ("eq", "ne", "in"):
         out.add(e[1])
-    elif op == "attr_eq":
+    elif op in ("attr_eq", "attr_val"):
         out.add(f"{e[1]}.{e[2]}")
     elif op == "old_eq":
         out.add(f"{e[1]}.old")
@@ -109,6 +114,8 @@ def truth(e, env, changed=None, old=None):
         return _val(env.get(e[1])) in e[2]
     if op == "attr_eq":
         return _attr(env.get(e[1]), e[2]) == e[3]
+    if op == "attr_val":
+        return _attr(env.get(e[1]), e[2])
     if op == "old_eq":
         o = old if e[1] == changed else None
         return _val(o) == e[2]
